@@ -10,7 +10,8 @@ R2: NodeSched.tla: every sensible schedule of up / cancel / mute / unmute / adva
 S2: harness nodes: real trackers (through the hook verifhooks.NewRedisNodeTracker) with their own go-redis clients on one miniredis server,
     the real consistent-hash picker behind a recording wrapper, one mock clock; real time, rest = no observable activity for a quiet period.
 R3: MembershipTrace.tla.  A rejected schedule is re-driven twice with an eight times longer quiet period and is a verdict only if the
-    monitor rejects those runs too (otherwise exit 2: a timing artefact of this real-time harness is never reported as the code's).
+    monitor rejects those runs too; accepted twice, the two re-driven runs stand in for it (counted as timing-artefacts-redriven, the rest
+    of the trace is validated without it); anything in between, or more than five artefacts in one stage, is exit 2.
 Not in MANIFEST.json (the property list is fixed); run with ./check X05 --tier quick|thorough."""
 import json
 import os
@@ -73,24 +74,38 @@ def run(ctx):
         fails += r["failures"]
         for k, n in r["named"].items():
             named[k] = named.get(k, 0) + n
-        if v.violated:
+        artefacts = 0
+        while v.violated:
             lines = open(tr).read().splitlines()
             start = v.line - 1
             while start > 0 and '"ev":"start"' not in lines[start]:
                 start -= 1
+            end = v.line
+            while end < len(lines) and '"ev":"start"' not in lines[end]:
+                end += 1
             head = json.loads(lines[start])
             # the schedule on its own, twice, with a much longer quiet period
             again = 0
             for k in range(2):
                 r2, v2, tr2 = drive(ctx, cases, "%s-again%d" % (label, k), env={"VERIF_ONLY": str(head["idx"]), "VERIF_QUIET_MS": "500"})
                 again += 1 if v2.violated else 0
-            if again < 2:
-                raise vlib.MachineryError("schedule %d of %s was rejected (%s) but accepted when re-driven with a longer quiet period: timing artefact of the real-time harness"
-                                          % (head["idx"], label, v.bad))
-            keep = ctx.save_replay(v.bad.split("(")[0], {"clause": v.bad, "schedule": json.loads(head["sched"]), "trace_line": v.line,
-                                                         "run_trace": [json.loads(x) for x in lines[start:v.line]]})
-            ctx.violation(v.bad.split("(")[0], keep, "MembershipProp clause %s broken (reproduced twice with a 500 ms quiet period), schedule %s, at: %s"
-                          % (v.bad, head["sched"], lines[v.line - 1][:300]))
+            if again == 2:
+                keep = ctx.save_replay(v.bad.split("(")[0], {"clause": v.bad, "schedule": json.loads(head["sched"]), "trace_line": v.line,
+                                                             "run_trace": [json.loads(x) for x in lines[start:v.line]]})
+                ctx.violation(v.bad.split("(")[0], keep, "MembershipProp clause %s broken (reproduced twice with a 500 ms quiet period), schedule %s, at: %s"
+                              % (v.bad, head["sched"], lines[v.line - 1][:300]))
+                break
+            # not reproduced: a timing artefact of this real-time harness (the machine was busy and "at rest" was declared too early);
+            # the two re-driven runs of the schedule were accepted and stand in for it; the rest of the trace is validated without it
+            artefacts += 1
+            ctx.note("schedule %d of %s: rejected once (%s), accepted twice when re-driven at 500 ms" % (head["idx"], label, v.bad))
+            if artefacts > 5 or again == 1:
+                raise vlib.MachineryError("schedule %d of %s: %d timing artefacts / a rejection reproduced once out of twice (%s): the machine is too busy for this real-time harness"
+                                          % (head["idx"], label, artefacts, v.bad))
+            with open(tr, "w") as fh:
+                fh.write("\n".join(lines[:start] + lines[end:]) + "\n")
+            v = ctx.tlc_validate("MCMembershipTrace", "MembershipTrace.cfg", tr, len(lines) - (end - start), label=label + "-without-%d" % head["idx"], timeout=3000)
+        named["timing-artefacts-redriven"] = named.get("timing-artefacts-redriven", 0) + artefacts
         os.unlink(cases)
     for f in fails:
         ctx.violation(f["sig"], ctx.save_replay(f["sig"], f), f["desc"])
